@@ -1392,6 +1392,26 @@ theorem C10_alloc_thin_buffer_defined (n : Nat) :
   refine ⟨(C10_alloc_pixel_loop_defined n).1, (C10_alloc_pixel_loop_defined n).2, (C10_alloc_pixel_loop_defined n).1, ?_⟩
   rw [readsDefined_iff]; exact fun i hi => hi
 
+
+/-- **C10, `_distance.cpp: dist_transform` — the scratch arrays `v = new int[n]`, `z = new double[n+1]` of `py_dt` are never read before
+they are written.** With the two float tests as arbitrary oracles subject to the same two facts as `C10_dist_transform_in_bounds`
+((i) `s > z[0] = -inf` succeeds: no NaN; (ii) the sentinel `z[kfin+1] = +inf` is never `< q`): every `v[k]`, `z[k]` read by the
+do-while of the first loop and every `z[k+1]`, `v[k]` read by the second loop addresses a cell that an earlier statement of the SAME
+call has stored (`v[0]`, `z[0]`, `z[1]` at the start; `v[k]`, `z[k]`, `z[k+1]` after every `++k`; cells above the current `k` keep earlier
+stores of this call), for every line length and every outcome of the comparisons; and the do-while always leaves through `break`.
+(`Df[q]`, `ot[q]` are stored for every `q < n` by the second loop before the third loop reads them: the pixel-loop shape.) -/
+theorem C10_alloc_dt_scratch_defined (cmp lt2 : Nat → Nat → Bool) (n : Nat) (hcmp : ∀ q, cmp q 0 = true)
+    (hlt : ∀ q, lt2 q (dtKfin cmp n) = false) :
+    (dtScratchReads cmp lt2 n).1.all DRead.ok = true ∧ (dtScratchReads cmp lt2 n).2.isSome = true := by
+  obtain ⟨h1, h2⟩ := dtScratchReads_ok cmp lt2 n hcmp hlt
+  exact ⟨(dOk_iff _).mpr h1, h2⟩
+
+/-- non-vacuity: `n = 4`, never pop (`k` grows to 3), the second loop advances while `k < 3`: 17 reads, all of stored cells; a
+second loop that ignores the sentinel (`lt2` always true) reads `z[5]`, which nobody stored -/
+example : dtKfin (fun _ _ => true) 4 = 3 ∧ (dtScratchReads (fun _ _ => true) (fun _ k => decide (k < 3)) 4).1.length = 17 ∧
+    (dtScratchReads (fun _ _ => true) (fun _ k => decide (k < 3)) 4).1.all DRead.ok = true ∧
+    (dtScratchReads (fun _ _ => true) (fun _ _ => true) 4).1.all DRead.ok = false := by decide
+
 /-- **C10, `majority_filter` (and `find2d`): fill, then window stores.** `PyArray_FILLWBYTE(res_a, 0)` stores every cell; the
 stores of the window loops `output.data() + (y + N/2)*cols + N/2 + x` (`y < rows-N`, `x < cols-N`, taken only when `rows, cols ≥ N`)
 stay inside the `rows*cols` cells, for every size and every window `N` (even, zero and larger than the image included). -/
@@ -1441,10 +1461,10 @@ def allocCover : List AllocCover := [
   ⟨"_center_of_mass.cpp", "py_center_of_mass", "totals", 0, "fill", "std::fill(totals, totals + max_label + 1, 0.0) right after new[]", [``C10_alloc_fill_defined], true⟩,
   ⟨"_convex.cpp", "convexhull", "output", 0, "pairs", "for i != h: *oiter++ = P[i].y; *oiter++ = P[i].x into the (h,2) result", [``C10_alloc_convexhull_output_defined, ``C10_graham_in_bounds], true⟩,
   ⟨"_convolve.cpp", "py_convolve", "output", 0, "pixel", "convolve<T>: one store *rpos per iteration of the pixel loop", [``C10_alloc_pixel_loop_defined], true⟩,
-  ⟨"_distance.cpp", "py_dt", "z", 0, "validated", "Felzenszwalb-Huttenlocher scratch: z[0], z[1] stored before the scan, z[k+1] stored whenever k is advanced; definedness of the cells read is not proved (bounds: C10_dist_transform_in_bounds)", [``C10_dist_transform_in_bounds], false⟩,
-  ⟨"_distance.cpp", "py_dt", "v", 0, "validated", "FH scratch: v[0] stored first, v[k] stored when k is advanced; not proved", [``C10_dist_transform_in_bounds], false⟩,
-  ⟨"_distance.cpp", "py_dt", "ot", 0, "validated", "FH scratch copy of the origins line, filled for q < n before it is read; not proved", [``C10_dist_transform_in_bounds], false⟩,
-  ⟨"_distance.cpp", "py_dt", "Df", 0, "validated", "FH scratch copy of the line, Df[q] stored for q < n before the scan reads it; not proved", [``C10_dist_transform_in_bounds], false⟩,
+  ⟨"_distance.cpp", "py_dt", "z", 0, "dtscratch", "dist_transform stores z[0], z[1] first and z[k], z[k+1] after every ++k; every z[k] / z[k+1] read is at or below the watermark", [``C10_alloc_dt_scratch_defined, ``C10_dist_transform_in_bounds], true⟩,
+  ⟨"_distance.cpp", "py_dt", "v", 0, "dtscratch", "dist_transform stores v[0] first and v[k] after every ++k; every v[k] read is below the watermark", [``C10_alloc_dt_scratch_defined, ``C10_dist_transform_in_bounds], true⟩,
+  ⟨"_distance.cpp", "py_dt", "ot", 0, "pixel", "second loop: ot[q] = … for every q < n (one store per iteration), third loop reads ot[q] for q < n", [``C10_alloc_pixel_loop_defined, ``C10_alloc_thin_buffer_defined, ``C10_dist_transform_in_bounds], true⟩,
+  ⟨"_distance.cpp", "py_dt", "Df", 0, "pixel", "second loop: Df[q] = … for every q < n (one store per iteration), third loop reads Df[q] for q < n", [``C10_alloc_pixel_loop_defined, ``C10_alloc_thin_buffer_defined, ``C10_dist_transform_in_bounds], true⟩,
   ⟨"_morph.cpp", "py_close_holes", "res_a", 0, "fill", "close_holes starts with std::fill_n(f.data(), f.size(), false)", [``C10_alloc_fill_defined], true⟩,
   ⟨"_surf.cpp", "build_pyramid", "pyramid", 0, "fill", "PyArray_FILLWBYTE(pyramid[o].raw_array(), 0) right after new_array", [``C10_alloc_fill_defined, ``C10_surf_pyramid_in_bounds], true⟩,
   ⟨"_surf.cpp", "py_surf", "arr", 0, "records", "for i: spoints[i].dump(arr.data(i)) stores all ndoubles cells of row i", [``C10_alloc_surf_records_defined], true⟩,
@@ -1507,12 +1527,11 @@ theorem C10_alloc_sites_covered :
       allocCover.any fun c => c.file == s.1 && c.fn == s.2.1 && c.var == s.2.2.1 && c.ord == s.2.2.2.2) = true := by
   decide +kernel
 
-/-- **C10, uninitialised results: what is NOT proved.** Exactly four sites are validated only (no theorem that every cell read
-was stored): the scratch arrays `z`, `v`, `ot`, `Df` of the Felzenszwalb–Huttenlocher passes in `_distance.cpp: py_dt` (their index
-bounds are `C10_dist_transform_in_bounds`). Every other site is filled by a loop shape with a `C10_alloc_*_defined` theorem. -/
+/-- **C10, uninitialised results: nothing is left validated-only.** Every row of the cover is marked proved and (unless it is one
+of the three allocation helpers, whose call sites have rows of their own) cites at least one theorem about the loop shape that fills
+the buffer. (Until round 4 the scratch arrays `z`, `v`, `ot`, `Df` of `py_dt` were validated only; see `C10_alloc_dt_scratch_defined`.) -/
 theorem C10_alloc_validated_only :
-    (allocCover.filter fun c => !c.proved).map (fun c => (c.file, c.var)) =
-      [("_distance.cpp", "z"), ("_distance.cpp", "v"), ("_distance.cpp", "ot"), ("_distance.cpp", "Df")] ∧
+    (allocCover.filter fun c => !c.proved).map (fun c => (c.file, c.var)) = [] ∧
     allocCover.all (fun c => c.proved → (c.mech == "helper" || !c.thms.isEmpty)) = true := by
   decide +kernel
 
